@@ -1,4 +1,5 @@
 """C06 - md.rmsd is the optimal-superposition RMSD and Trajectory.superpose attains it."""
+import itertools
 import math
 import warnings
 
@@ -27,7 +28,9 @@ def strategy(draw, tier="quick"):
     big = draw(st.integers(0, 14)) == 0
     n = draw(st.integers(1000, 4000)) if big else draw(st.integers(3, 64))
     nf = draw(st.integers(2, 5))
-    kind = draw(st.sampled_from(["random", "random", "near", "near", "planar", "collinear", "mirror", "rot180", "rot180", "smallrot", "smallrot"]))
+    kind = draw(st.sampled_from(["random", "random", "near", "near", "planar", "collinear", "mirror", "rot180", "rot180", "smallrot", "smallrot", "symmetric"]))
+    if kind == "symmetric":
+        n = draw(st.sampled_from([4, 6, 8, 9]))       # tetrahedron, octahedron, cube, centred cube
     case = {"n": n, "nf": nf, "kind": kind, "noise": draw(st.sampled_from([1e-4, 1e-3, 1e-2, 1e-1])),
             "scale": draw(st.sampled_from([0.02, 0.3, 1.0, 3.0])),
             "offset": draw(st.sampled_from([0.0, 0.0, 5.0, 60.0, 500.0])), "seed": draw(st.integers(0, 2 ** 32 - 1)),
@@ -40,6 +43,19 @@ def make(case):
     rng = np.random.Generator(np.random.PCG64(case["seed"]))
     n, nf, kind, s = case["n"], case["nf"], case["kind"], case["scale"]
     base = rng.normal(0, s, (n, 3))
+    if kind == "symmetric":
+        # highly symmetric point sets with exactly representable coordinates, rigidly moved by exact rotations (signed axis
+        # permutations) and dyadic translations: the second-moment tensor is isotropic, the characteristic polynomial of the
+        # QCP matrix has multiple roots and intermediate quantities cancel to exactly zero
+        cube = np.array(list(itertools.product([-1.0, 1.0], repeat=3)))
+        poly = {4: cube[[0, 3, 5, 6]], 6: np.vstack([np.eye(3), -np.eye(3)]), 8: cube, 9: np.vstack([cube, np.zeros((1, 3))])}[n]
+        rots = oracle.cube_rotations()
+        size = [0.5, 1.0, 2.0][case["seed"] % 3]
+        frames = []
+        for f in range(nf):
+            Rk = rots[int(rng.integers(0, len(rots)))] if f else np.eye(3)
+            frames.append((poly * size) @ Rk.T + (np.round(rng.normal(0, 2.0, 3) * 4) / 4 if case["offset"] else 0.0))
+        return np.array(frames).astype(np.float32)
     if kind == "planar":
         base[:, 2] *= 1e-4
     if kind == "collinear":
